@@ -328,6 +328,56 @@ func docClass(b []byte) string {
 const c05MutBatchesQuick = 48
 const c05MutBatchesThorough = 640
 
+// byte-table family: the scanners classify bytes through 256-entry tables (white space, number
+// characters, value starts, escapes), so every byte value is put at every position of a few
+// documents - inserted and substituted - not only the structurally significant ones.
+var c05ByteDocs = []string{
+	`{"a":[1,true,"s",null,-2.5e3],"b":{"c":{}}}`,
+	` [ { "A" : 10 , "B" : "x\ny" } , [ ] , 0.5 , false ] `,
+	`{"A":1,"B":"two","C":[3.5,null],"D":{"E":true}}`,
+	`"str"`, `-12.5E+2`, `null`,
+}
+
+const c05ByteBatchesQuick = 6
+const c05ByteBatchesThorough = 6 + 26
+
+func c05ByteTable(c *rt.Ctx, k int) {
+	var doc []byte
+	if k < len(c05ByteDocs) {
+		doc = []byte(c05ByteDocs[k])
+	} else {
+		doc = gen.Doc(rt.FixedRNG("C05bytes", k), 2)
+		if len(doc) > 90 {
+			doc = doc[:90] // an invalid prefix is as good a base as any
+		}
+	}
+	sub := 0
+	c05Check(c, sub, doc)
+	for i := 0; i <= len(doc); i++ {
+		for v := 0; v < 256; v++ {
+			sub++
+			m := append(append(append([]byte{}, doc[:i]...), byte(v)), doc[i:]...)
+			c05Check(c, sub, m)
+			if i < len(doc) && byte(v) != doc[i] {
+				sub++
+				m2 := append([]byte{}, doc...)
+				m2[i] = byte(v)
+				c05Check(c, sub, m2)
+			}
+		}
+	}
+	c.NonTrivial("bytes", string(doc))
+	c.Obs("byte_table_texts", int64(sub))
+	c.Sample(map[string]any{"family": "byte-table", "base": string(doc), "texts": sub, "byte_values": 256, "positions": len(doc) + 1})
+}
+
+func c05MutBatches(tier string) int {
+	if tier == "thorough" {
+		return c05MutBatchesThorough
+	}
+	return c05MutBatchesQuick
+}
+
 func c05Exhaustive(tier string) (prefixBatches, sufLen int) {
 	n := len(Alphabet28)
 	if tier == "thorough" {
@@ -342,9 +392,9 @@ func init() {
 		NumBatches: func(tier string, seed int64) int {
 			pb, _ := c05Exhaustive(tier)
 			if tier == "thorough" {
-				return 1 + pb + c05MutBatchesThorough
+				return 1 + pb + c05MutBatchesThorough + c05ByteBatchesThorough
 			}
-			return 1 + pb + c05MutBatchesQuick
+			return 1 + pb + c05MutBatchesQuick + c05ByteBatchesQuick
 		},
 		Run: func(c *rt.Ctx) {
 			n := len(Alphabet28)
@@ -385,6 +435,8 @@ func init() {
 				if k == 5 {
 					c.Sample(map[string]any{"family": "exhaustive", "prefix": string(prefix), "strings": sub, "max_len": 2 + sufLen})
 				}
+			case c.Idx > pb+c05MutBatches(c.Tier):
+				c05ByteTable(c, c.Idx-pb-c05MutBatches(c.Tier)-1)
 			default:
 				// mutation family: a generated valid text and every single-byte deletion, insertion
 				// and substitution over the alphabet
